@@ -285,6 +285,7 @@ var Mutants = map[string][]Mutant{
 		{"setter writes the stack", "canvas.go", `func \(c \*Context\) SetStrokeWidth\(width float64\) \{\n`, "func (c *Context) SetStrokeWidth(width float64) {\n\tc.stack = nil\n", "E11.ctx-setter"},
 	},
 	"C16": {
+		{"unwrapped lines count the white space after a break (reverts fix 6632432)", "text.go", `if !lineStart \|\| item\.Type != text\.GlueType \{`, "if lineStart || !lineStart {", "E11.nowrap-width-skips-leading-glue"},
 		{"indent dropped from the items when the text starts with white space", "text/linebreak.go", `(?s)\titems = append\(items, Box\(indent\)\)\n\tif padStart\.Size != 0 \{\n\t\titems\[0\]\.Width \+= padStart\.Width\n\t\titems\[0\]\.Size \+= padStart\.Size\n\t\titems = append\(items, Penalty\(0, 0, false\)\)\n\t\}`, "\tif padStart.Size != 0 {\n\t\titems = append(items, padStart, Penalty(0, 0, false))\n\t} else {\n\t\titems = append(items, Box(indent))\n\t}", "E11.indent-on-every-path"},
 		{"lines aligned by the break width including trailing spaces", "text.go", `x \+= width - \(breaks\[j\]\.Width - eolWidth\)`, "x += width - breaks[j].Width", "E11.aligned-width-excludes-eol"},
 		{"trailing white space stretched like the rest of the line", "text.go", `if 0\.0 < width && i != bi \{`, "if 0.0 < width {", "E11.aligned-width-excludes-eol"},
